@@ -80,6 +80,13 @@ Calibration (unchanged tree, seeds 0, 1, 2, 7, 12345):
   empty first partition and no initial; fold(initial=) on an all-empty
   multi-partition bag; lazily evaluated partitions read twice (through the alias
   tasks of concat/repartition, or ``b.product(b)``).
+
+Sibling facet (vf/mon/siblings.py): every case is also built a second time with ONE result-relevant parameter changed
+(the same prefix followed by the same last operation planned again with other arguments; repartition grid: another npartitions).
+The two lazily built collections must not share output keys unless their stand-alone values are equal (label
+``<op>:<param>-not-in-name:siblings-share-keys``); for a seeded ~15 % of the cases both are also computed in one graph and
+compared with their stand-alone values (``<op>:<param>:differs-when-computed-with-sibling``).  Counters siblings_built /
+siblings_computed_together / siblings_with_different_values have floors.
 """
 from __future__ import annotations
 
@@ -1534,7 +1541,30 @@ def _siblings(ctx, case, forced, steps, states, bag, val):
         with dask.config.set(scheduler="sync"):
             return step2.dask(pre, states[-1])
 
-    S.check(ctx, forced, "arguments", a, build, va=val, describe={"last_step": step2.desc})
+    S.check(ctx, forced, "arguments", a, build, va=val, same=_same_result, describe={"last_step": step2.desc})
+
+
+def _same_result(x, y):
+    """Equality of two computed results as far as bag operations promise it.  The order of the elements of a result
+    (and of the members of a group) is not promised by groupby / foldby / distinct / frequencies / join ..., and with a
+    disk shuffle it changes with the order in which the tasks of the graph ran: the facet asks WHICH elements a
+    collection holds.  (First version compared lists in order: false alarm `groupby:arguments:differs-when-computed-
+    with-sibling`, same groups in another order.)"""
+    if isinstance(x, (list, tuple)) and isinstance(y, (list, tuple)):
+        return len(x) == len(y) and _bagkey(x) == _bagkey(y)
+    return G.canon(x) == G.canon(y)
+
+
+def _bagkey(seq):
+    import collections
+
+    out = []
+    for e in seq:
+        if isinstance(e, tuple) and len(e) == 2 and isinstance(e[1], list):
+            out.append("(%s,[%s])" % (G.canon(e[0]), ",".join(sorted(G.canon(v) for v in e[1]))))
+        else:
+            out.append(G.canon(e))
+    return collections.Counter(out)
 
 
 STATS = ("count", "sum", "mean", "std", "var", "min", "max", "any", "all")
